@@ -389,6 +389,19 @@ mut("c18_validate_skips_checksum_variant", ["C18"], "src/api.rs",
     """        if let Ok(s) = CheckedHrpstring::new::<T>(input) {""",
     """        if let Ok(s) = CheckedHrpstring::new::<T>(input).or_else(|_| CheckedHrpstring::new::<Bech32m>(input)) {""")
 
+# ---- dimensions added after the seeding rounds: letter case, scale, feature sets
+mut("c09_balance_lookup_folds_case", ["C09"], "src/bank.rs",
+    """        let val = BALANCES.may_load(bank_storage, addr)?;""",
+    """        let val = BALANCES.may_load(bank_storage, &Addr::unchecked(addr.as_str().to_lowercase()))?;""")
+mut("c11_instance_number_truncated_to_a_byte", ["C11"], "src/addresses.rs",
+    """        let canonical_addr = instantiate_address(code_id, instance_id);""",
+    """        let canonical_addr = instantiate_address(code_id, instance_id as u8 as u64);""")
+mut("c17_grpc_query_needs_stargate_feature", ["C17"], "src/app.rs",
+    """            #[cfg(feature = "cosmwasm_2_0")]
+            QueryRequest::Grpc(req) => self.stargate.query_grpc(api, storage, &querier, block, req),""",
+    """            #[cfg(all(feature = "stargate", feature = "cosmwasm_2_0"))]
+            QueryRequest::Grpc(req) => self.stargate.query_grpc(api, storage, &querier, block, req),""")
+
 # fix up the multi-line mutant that needs a closing brace
 p, f, o, n = M["c14_delegate_does_not_move_coins"]
 M["c14_delegate_does_not_move_coins"] = (p, f,
